@@ -26,7 +26,7 @@ ViewViol(e) ==
         D == DenomsOf(e.post) IN
     IF ~a.exists THEN {}
     ELSE IF "panic" \in DOMAIN e.views THEN {Sig("panic", e.views.where, e)}
-    ELSE IF AcctSound(D, a) THEN {Sig(k, GetterClass(D, a, e.views), e) : k \in GetterKinds(D, a, e.views)}
+    ELSE IF AcctSound(D, a) THEN {Sig(k, GetterKindClass(k, D, a, e.views), e) : k \in AllGetterKinds(D, a, e.views)}
     ELSE {}
 
 NewSigs(vs) == {v \in vs : ~\E w \in viol : w.kind = v.kind /\ w.class = v.class}
